@@ -39,9 +39,10 @@ var nearMissList = map[string][]string{"superlist": {"other", "not-chihaya.examp
 func init() { gens["C15"] = &Gen{Run: runC15, Replay: nil} }
 
 type jwkServer struct {
-	mu   sync.Mutex
-	keys map[string]*rsa.PrivateKey // published kid -> key
-	srv  *httptest.Server
+	mu     sync.Mutex
+	keys   map[string]*rsa.PrivateKey // published kid -> key
+	srv    *httptest.Server
+	broken string // "" | "garbage" | "500" | "badkey": what the endpoint answers instead of the key set
 }
 
 func b64(b []byte) string { return base64.RawURLEncoding.EncodeToString(b) }
@@ -49,6 +50,18 @@ func b64(b []byte) string { return base64.RawURLEncoding.EncodeToString(b) }
 func (s *jwkServer) handler(w http.ResponseWriter, r *http.Request) {
 	s.mu.Lock()
 	defer s.mu.Unlock()
+	switch s.broken {
+	case "garbage":
+		_, _ = w.Write([]byte("{\"keys\": [not json"))
+		return
+	case "500":
+		w.WriteHeader(500)
+		_, _ = w.Write([]byte("upstream unavailable"))
+		return
+	case "badkey":
+		_, _ = w.Write([]byte(`{"keys":[{"kty":"RSA","kid":"k0","n":"!!!","e":"AQAB"}]}`))
+		return
+	}
 	type jwk struct {
 		Kty string `json:"kty"`
 		Kid string `json:"kid"`
@@ -294,7 +307,21 @@ func runC15(c *Ctx) {
 	for i := 0; i < n; i++ {
 		ts := base()
 		why := "valid"
-		switch r.Intn(30) {
+		switch r.Intn(32) {
+		case 30, 31:
+			// a refresh that fails (endpoint down, garbage, undecodable key) must leave the installed keys alone
+			js.mu.Lock()
+			js.broken = []string{"garbage", "500", "badkey"}[r.Intn(3)]
+			js.mu.Unlock()
+			ferr := jwthook.VerifUpdateKeys(h)
+			js.mu.Lock()
+			js.broken = ""
+			js.mu.Unlock()
+			if ferr == nil {
+				c.Emit("jwt.refresh_failed", "NO-ERROR")
+			}
+			ts.signWith = r.Intn(3)
+			why = "after-failed-refresh"
 		case 26:
 			ts.aud = []string{"super", "sub", "case", "space", "empty"}[r.Intn(5)]
 			why = "aud-near-miss-" + ts.aud
